@@ -2,7 +2,7 @@
    Everything here is executable Gallina; no proofs. *)
 From Coq Require Import List NArith ZArith String Bool.
 Import ListNotations.
-From UV Require Import Py.Val Py.Str Py.Utf8 Py.Regex Py.UrlLib Gen.Patterns Ural.TrieDict Ural.Utils Ural.HostnameTrieSet.
+From UV Require Import Py.Val Py.Str Py.Utf8 Py.Regex Py.UrlLib Gen.Patterns Ural.TrieDict Ural.Utils Ural.HostnameTrieSet Ural.SuffixTrie Ural.Tld Proofs.SuffixTrieFacts.
 Open Scope string_scope.
 
 Definition opt_wrap (o : option val) : val :=
@@ -184,13 +184,68 @@ Definition do_hts (arg : val) : val :=
   | _ => vbad
   end.
 
+(* ---------------- SuffixTrie / tld (C08) ---------------- *)
+Definition vpair_opt (o : option (str * str)) : val :=
+  match o with Some (a, b) => VL [VS a; VS b] | None => VNone end.
+Definition vnat_opt (o : option nat) : val := match o with Some n => vnat n | None => VNone end.
+
+Definition st_observe (e : env) (t : snode) (u : str) : val :=
+  VL [vres vpair_opt (st_split e t u); vres vstr_opt (st_extract_suffix e t u);
+      vres vstr_opt (st_extract_domain_name e t u); vres VB (st_has_valid_domain_name e t u)].
+
+Definition strs_of (l : list val) : list str :=
+  flat_map (fun x => match x with VS s => [s] | _ => [] end) l.
+
+(* arg: env (rule ...) (url ...) *)
+Definition do_suffixtrie (arg : val) : val :=
+  match arg with
+  | VL [ev; VL rules; VL urls] =>
+      let e := env_of ev in
+      let t := build (strs_of rules) in
+      VL (map (st_observe e t) (strs_of urls))
+  | _ => vbad
+  end.
+
+(* the PSL specification itself, for label lists given in domain order:
+   arg: (rule ...) ((label ...) ...) -> suffix lengths *)
+Definition do_psl (arg : val) : val :=
+  match arg with
+  | VL [VL rules; VL hosts] =>
+      let rs := map (fun r => rule_of (parts_of r)) (strs_of rules) in
+      VL [VB (wf_rules (strs_of rules));
+          VL (map (fun h => match h with VL labs => vnat_opt (psl rs (rev (strs_of labs))) | _ => vbad end) hosts)]
+  | _ => vbad
+  end.
+
+(* bundled lists; the trie is built once per request. arg: env (url ...) *)
+Definition do_tld (arg : val) : val :=
+  match arg with
+  | VL [ev; VL urls] =>
+      let e := env_of ev in
+      let t := suffix_trie tt in
+      VL (map (fun u => VL [st_observe e t u; vres VB (has_valid_tld e u); vres VB (is_valid_tld e u)]) (strs_of urls))
+  | _ => vbad
+  end.
+
+Definition do_psl_bundled (arg : val) : val :=
+  match arg with
+  | VL hosts =>
+      let rs := map (fun r => rule_of (parts_of r)) bundled_rules in
+      VL (map (fun h => match h with VL labs => vnat_opt (psl rs (rev (strs_of labs))) | _ => vbad end) hosts)
+  | _ => vbad
+  end.
+
 (* ---------------- dispatch ---------------- *)
 Definition table : list (str * (val -> val)) :=
   [ (lit "triedict", do_triedict);
     (lit "regex", do_regex);
     (lit "urllib", do_urllib);
     (lit "utils", do_utils);
-    (lit "hts", do_hts) ].
+    (lit "hts", do_hts);
+    (lit "suffixtrie", do_suffixtrie);
+    (lit "psl", do_psl);
+    (lit "tld", do_tld);
+    (lit "psl_bundled", do_psl_bundled) ].
 
 Fixpoint find_fn (name : str) (l : list (str * (val -> val))) : option (val -> val) :=
   match l with
